@@ -44,6 +44,7 @@ def gen_case(streams, tier):
                            max_mul_width=5, mem_wide_aw=0.0, mem_aw=(1, 4), rom_aw_max=3,
                            regs=(0, 2), mems=(0, 1))
     script = gen.gen_script(g, cfg)
+    script, stage = gen.maybe_stage(g, script, 0.2, ['sim', 'fast', 'compiled', 'export', 'analysis', 'optimized_copy', 'copy'])
     ncyc = streams['inputs'].randint(1, 10)
     with_compiled = g.random() < (0.3 if tier == 'quick' else 0.4)
     has_mem = any(not m.get('rom') for m in script['mems'])
@@ -66,6 +67,7 @@ def gen_case(streams, tier):
         'faults': faults, 'labels': labels,
         'sched': world.gen_sched(streams),
         'state_seed': g.getrandbits(32),
+        'stage': stage,
     }
     case['interleave'] = replica.gen_interleaving(
         streams['sched'], labels, ncyc, [x['at'] for x in faults])
@@ -126,7 +128,7 @@ def run(case, res):
     script = case['script']
     sched = case['sched']
     world.setup_world(sched)
-    b = world.build_dut(script, sched)
+    b = world.build_dut(script, sched, stage=world.stage_with_hook(case.get('stage'), res))
     t = transform(case, b)
     if t is None:
         res.probes.hit('transform_refused:' + case['config'])
